@@ -2,10 +2,13 @@ package seq
 
 import (
 	"bytes"
+	"errors"
 	"fmt"
 	"io"
+	"sync"
 	"testing"
 	"time"
+	"unsafe"
 
 	"github.com/hashicorp/raft"
 	wal "github.com/hashicorp/raft-wal"
@@ -468,4 +471,199 @@ func runCodecID(c CodecIDCase) (res common.Result) {
 
 func TestC12CodecID(t *testing.T) {
 	common.Run(t, "C12", "C12CodecID", genCodecIDCase, runCodecID)
+}
+
+// ---- (4) pooled read buffers are never shared by two reads in flight
+
+// OverlapCase: after some reads that were made to fail half way (an I/O error
+// on the 1st or 2nd ReadAt of one GetLog), reader A is parked right after one
+// of its ReadAt calls has filled its buffer; while it is parked reader B does
+// complete GetLogs. No buffer B reads into may overlap the one A still holds,
+// and both get exactly their entries.
+type OverlapCase struct {
+	SegSize int        `json:"seg"`
+	Sizes   []int      `json:"sizes"` // Data lengths
+	Reopen  bool       `json:"reopen"`
+	Faulty  []FaultGet `json:"faulty"`
+	A       int        `json:"a"`
+	ParkAt  int        `json:"parkAt"`
+	Bs      []int      `json:"bs"`
+}
+
+type FaultGet struct {
+	Pos  int `json:"pos"`
+	Fail int `json:"fail"` // the Fail-th ReadAt of this GetLog returns an error
+}
+
+func genOverlapCase(t *rapid.T) OverlapCase {
+	var c OverlapCase
+	c.SegSize = rapid.SampledFrom([]int{4096, 1 << 20, 1 << 20}).Draw(t, "seg")
+	n := rapid.IntRange(3, 7).Draw(t, "n")
+	for i := 0; i < n; i++ {
+		c.Sizes = append(c.Sizes, rapid.SampledFrom([]int{0, 10, 300, 300, 65000, 65536 - 40, 65536, 70000, 200000}).Draw(t, "size"))
+	}
+	c.Reopen = rapid.Bool().Draw(t, "reopen")
+	for i, k := 0, rapid.IntRange(0, 3).Draw(t, "nfaulty"); i < k; i++ {
+		c.Faulty = append(c.Faulty, FaultGet{Pos: rapid.IntRange(0, n-1).Draw(t, "fpos"), Fail: rapid.IntRange(1, 3).Draw(t, "ffail")})
+	}
+	c.A = rapid.IntRange(0, n-1).Draw(t, "a")
+	c.ParkAt = rapid.IntRange(1, 3).Draw(t, "parkAt")
+	for i, k := 0, rapid.IntRange(1, 6).Draw(t, "nb"); i < k; i++ {
+		c.Bs = append(c.Bs, rapid.IntRange(0, n-1).Draw(t, "b"))
+	}
+	return c
+}
+
+func runOverlap(c OverlapCase) (res common.Result) {
+	fs := simfs.New()
+	cfg := kit.Cfg{SegSize: c.SegSize, FS: fs}
+	w, err := cfg.Open()
+	if err != nil {
+		res.Fail = common.Failf("open-fresh", "%v", err)
+		return
+	}
+	defer func() { w.Close() }()
+	var want []*raft.Log
+	for i, sz := range c.Sizes {
+		l := kit.EntrySpec{DataLen: sz, Seed: uint8(17 * (i + 1)), Term: 3}.Make(uint64(i+1), 0)
+		want = append(want, refmodel.CloneLog(l))
+		if err := w.StoreLogs([]*raft.Log{l}); err != nil {
+			res.Fail = common.Failf("append-err", "StoreLogs = %v", err)
+			return
+		}
+		kit.Barrier(w)
+	}
+	if c.Reopen {
+		w.Close()
+		if w, err = cfg.Open(); err != nil {
+			res.Fail = common.Failf("reopen-err", "%v", err)
+			return
+		}
+		res.Classes = append(res.Classes, "sealed-segments-read-from-disk")
+	}
+	check := func(who string, pos int, got *raft.Log, err error) *common.Failure {
+		if err != nil {
+			return common.Failf("overlap/get-present-err", "%s: GetLog(%d) = %v", who, want[pos].Index, err)
+		}
+		if d := refmodel.Diff(want[pos], got); d != "" {
+			return common.Failf("overlap/get-content", "%s: GetLog(%d) returned something else than what was stored: %s", who, want[pos].Index, d)
+		}
+		return nil
+	}
+	// reads that fail half way
+	errRead := errors.New("verif: injected read error")
+	for _, fg := range c.Faulty {
+		reads := 0
+		hit := false
+		fs.SetHook(func(ev simfs.Event) (int, error) {
+			if ev.Kind == simfs.KReadAt {
+				reads++
+				if reads == fg.Fail {
+					hit = true
+					return -1, errRead
+				}
+			}
+			return -1, nil
+		})
+		var got raft.Log
+		err := w.GetLog(want[fg.Pos].Index, &got)
+		fs.SetHook(nil)
+		if hit {
+			res.Classes = append(res.Classes, fmt.Sprintf("read-failed-at-ReadAt#%d", fg.Fail))
+			if err == nil {
+				// tolerated only if the content is right (nothing in the property forbids a retry inside)
+				if f := check("read with an injected error", fg.Pos, &got, nil); f != nil {
+					res.Fail = f
+					return
+				}
+			}
+		} else if f := check("read", fg.Pos, &got, err); f != nil {
+			res.Fail = f
+			return
+		}
+	}
+	// overlap
+	type span struct{ lo, hi uintptr }
+	spanOf := func(p []byte) span {
+		if len(p) == 0 {
+			return span{}
+		}
+		lo := uintptr(unsafe.Pointer(unsafe.SliceData(p)))
+		return span{lo, lo + uintptr(len(p))}
+	}
+	var mu sync.Mutex
+	var aSpan span
+	aReads, parkedFlag := 0, false
+	var shared string
+	parked := make(chan struct{})
+	release := make(chan struct{})
+	fs.PostRead = func(name string, p []byte, off int64, n int, err error) {
+		mu.Lock()
+		if !parkedFlag {
+			aReads++
+			if aReads == c.ParkAt {
+				parkedFlag = true
+				aSpan = spanOf(p)
+				mu.Unlock()
+				close(parked)
+				<-release
+				return
+			}
+			mu.Unlock()
+			return
+		}
+		s := spanOf(p)
+		if s.lo < aSpan.hi && aSpan.lo < s.hi && shared == "" {
+			shared = fmt.Sprintf("a read of %s at offset %d was given the buffer [%#x,%#x) while the parked reader still holds [%#x,%#x)", name, off, s.lo, s.hi, aSpan.lo, aSpan.hi)
+		}
+		mu.Unlock()
+	}
+	defer func() { fs.PostRead = nil }()
+	var aGot raft.Log
+	aDone := make(chan error, 1)
+	go func() { aDone <- w.GetLog(want[c.A].Index, &aGot) }()
+	select {
+	case err := <-aDone:
+		// A made fewer ReadAt calls than ParkAt: no overlap to look at
+		mu.Lock()
+		parkedFlag = true
+		mu.Unlock()
+		res.Classes = append(res.Classes, "reader-finished-before-park-point")
+		res.Fail = check("reader A (not parked)", c.A, &aGot, err)
+		return
+	case <-parked:
+	}
+	for _, b := range c.Bs {
+		var got raft.Log
+		err := w.GetLog(want[b].Index, &got)
+		if f := check(fmt.Sprintf("reader B while reader A (GetLog(%d)) is parked after its ReadAt #%d", want[c.A].Index, c.ParkAt), b, &got, err); f != nil && res.Fail == nil {
+			res.Fail = f
+		}
+	}
+	close(release)
+	err = <-aDone
+	mu.Lock()
+	sh := shared
+	mu.Unlock()
+	if sh != "" {
+		res.Fail = common.Failf("overlap/pool-buffer-shared", "two reads in flight share a read buffer: %s (faulty reads before: %+v)", sh, c.Faulty)
+		return
+	}
+	if res.Fail != nil {
+		return
+	}
+	if f := check(fmt.Sprintf("reader A, parked after its ReadAt #%d while %d other reads ran", c.ParkAt, len(c.Bs)), c.A, &aGot, err); f != nil {
+		res.Fail = f
+		return
+	}
+	res.NonTrivial = true
+	res.Classes = append(res.Classes, "reads-overlapped")
+	if len(c.Faulty) > 0 {
+		res.Classes = append(res.Classes, "overlap-after-failed-reads")
+	}
+	return
+}
+
+func TestC12PoolOverlap(t *testing.T) {
+	common.Run(t, "C12", "C12PoolOverlap", genOverlapCase, runOverlap)
 }
